@@ -38,11 +38,33 @@ type K8s struct {
 	Latency time.Duration
 }
 
-func (k *K8s) travel() {
-	if k.Latency > 0 {
-		time.Sleep(k.Latency)
+// travel is the request's way to the server. A caller that gave its request a deadline or
+// cancelled it gets the context's error, as with a real client, and the server never sees the request.
+func (k *K8s) travel(ctx context.Context) error {
+	if ctx == nil {
+		ctx = context.Background()
 	}
+	if err := ctx.Err(); err != nil {
+		return err
+	}
+	if k.Latency > 0 {
+		select {
+		case <-time.After(k.Latency):
+		case <-ctx.Done():
+			return ctx.Err()
+		}
+	}
+	return nil
 }
+
+// callerGaveUp journals a request that never reached the server because the caller's own
+// context ended (not a failure of the API).
+func (k *K8s) callerGaveUp(kind, node string, err error) {
+	k.J.Add(Entry{Kind: kind, Node: node, Err: CallerPrefix + err.Error()})
+}
+
+// CallerPrefix marks journal entries of requests abandoned by the caller itself.
+const CallerPrefix = "caller gave up: "
 
 // NewK8s creates an empty API state.
 func NewK8s(j *Journal) *K8s {
@@ -55,6 +77,14 @@ func (k *K8s) PutNode(n *v1.Node) {
 	c := n.DeepCopy()
 	c.ResourceVersion = fmt.Sprint(k.rv)
 	k.Nodes[c.Name] = c
+}
+
+// Touch bumps the resourceVersion of a stored node (a status update by the kubelet).
+func (k *K8s) Touch(name string) {
+	if n := k.Nodes[name]; n != nil {
+		k.rv++
+		n.ResourceVersion = fmt.Sprint(k.rv)
+	}
 }
 
 // RemoveNode drops a node without journalling (environment action).
@@ -96,8 +126,11 @@ func brief(n *v1.Node) string {
 	return "taints=[" + strings.Join(ts, ",") + "]"
 }
 
-func (c *nodeClient) Get(_ context.Context, name string, _ metav1.GetOptions) (*v1.Node, error) {
-	c.k.travel()
+func (c *nodeClient) Get(ctx context.Context, name string, _ metav1.GetOptions) (*v1.Node, error) {
+	if err := c.k.travel(ctx); err != nil {
+		c.k.callerGaveUp(KGet, name, err)
+		return nil, err
+	}
 	cur := c.k.Nodes[name]
 	e := Entry{Kind: KGet, Node: name}
 	if cur != nil {
@@ -117,12 +150,15 @@ func (c *nodeClient) Get(_ context.Context, name string, _ metav1.GetOptions) (*
 	return cur.DeepCopy(), nil
 }
 
-func (c *nodeClient) update(kind string, node *v1.Node) (*v1.Node, error) {
+func (c *nodeClient) update(ctx context.Context, kind string, node *v1.Node) (*v1.Node, error) {
 	if node == nil {
 		c.k.J.Add(Entry{Kind: kind, Err: "nil object"})
 		return nil, apierrors.NewBadRequest("nil node")
 	}
-	c.k.travel()
+	if err := c.k.travel(ctx); err != nil {
+		c.k.callerGaveUp(kind, node.Name, err)
+		return nil, err
+	}
 	cur := c.k.Nodes[node.Name]
 	e := Entry{Kind: kind, Node: node.Name, Sent: node.DeepCopy(), SentBrief: brief(node)}
 	if cur != nil {
@@ -151,16 +187,19 @@ func (c *nodeClient) update(kind string, node *v1.Node) (*v1.Node, error) {
 	return stored.DeepCopy(), nil
 }
 
-func (c *nodeClient) Update(_ context.Context, node *v1.Node, _ metav1.UpdateOptions) (*v1.Node, error) {
-	return c.update(KUpdate, node)
+func (c *nodeClient) Update(ctx context.Context, node *v1.Node, _ metav1.UpdateOptions) (*v1.Node, error) {
+	return c.update(ctx, KUpdate, node)
 }
 
-func (c *nodeClient) UpdateStatus(_ context.Context, node *v1.Node, _ metav1.UpdateOptions) (*v1.Node, error) {
-	return c.update(KOther, node)
+func (c *nodeClient) UpdateStatus(ctx context.Context, node *v1.Node, _ metav1.UpdateOptions) (*v1.Node, error) {
+	return c.update(ctx, KOther, node)
 }
 
-func (c *nodeClient) Delete(_ context.Context, name string, _ metav1.DeleteOptions) error {
-	c.k.travel()
+func (c *nodeClient) Delete(ctx context.Context, name string, _ metav1.DeleteOptions) error {
+	if err := c.k.travel(ctx); err != nil {
+		c.k.callerGaveUp(KDelete, name, err)
+		return err
+	}
 	cur := c.k.Nodes[name]
 	e := Entry{Kind: KDelete, Node: name}
 	if cur != nil {
